@@ -214,7 +214,7 @@ def trace_spaces(tier, seed):
         "model": ["NRTL", "UNIQUAC"], "mode": ["vac", ("T", -20.0), ("p", 0.5)], "prog": ["none", "poly"],
         "area": [0.05, 1.0], "amount": [0.047, 50.0], "dt": core.lat([0.1, 2.0], seed), "steps": [4] if q else [3, 8],
         "x0": core.lat([0.1, 0.45, 0.9], seed), "basis": ["weight", "molar"], "T": core.lat([313.15, 353.15], seed),
-        "P": [(1e-3, 2e-5)], "tref_offset": [0.0, -12.0],
+        "P": [(1e-3, 2e-5)], "tref_offset": [0.0, -12.0], "exp_units": [U.Units.kg_m2_h_kPa, "SI"],
     }
     non = {
         "kind": ["nonideal_iso", "nonideal_noniso"], "mixture": ["H2O_EtOH", "S2"], "model": ["NRTL", "UNIQUAC"],
